@@ -304,6 +304,10 @@ type Pending struct {
 	rest  []byte
 	n     int
 	done  bool
+	// ContFmt0: continuation chunks repeat the type-0 header of the first chunk instead of using type 3 (the spec
+	// says continuation chunks SHOULD be type 3, it does not forbid a full header; librtmp-style readers go on with
+	// the message). Only meaningful when the first chunk is type 0 as well, so that the header memory is unchanged.
+	ContFmt0 bool
 }
 
 // Begin starts message m with format f for its first chunk (must be one of
@@ -340,6 +344,8 @@ func (p *Pending) Next() []byte {
 	ff := uint8(3)
 	if p.n == 0 {
 		ff = p.f
+	} else if p.ContFmt0 && p.f == 0 {
+		ff = 0
 	}
 	h := p.w.basicHeader(ff, p.m.Csid)
 	switch ff {
